@@ -247,7 +247,7 @@ func init() {
 		},
 	})
 	wsAssume := append([]string{
-		"connections are constructed directly (newConn over an in-harness net.Conn); Dial/Upgrade, per-message compression and the JSON helpers are outside the claim (net/http, SHA-1, compress/flate, encoding/json are not encodable)",
+		"connections are constructed directly (newConn over an in-harness net.Conn); Dial/Upgrade (handshake, extension negotiation) and the JSON helpers are outside the claim (net/http, SHA-1, encoding/json are not encodable); per-message compression is covered for concrete payloads only (Huffman levels) and for symbolic payloads in stored blocks (level 0), context takeover is not offered by the library",
 		"time.Now returns a fixed instant and timers never fire (write deadlines and the 1000 h lock wait never expire)",
 		"websocket.maskBytes is interpreted from source for buffers below 64 bytes (longer ones use the byte-wise definition as a summary, justified by HarnessC13_Mask): its unsafe word loop runs on the engine's pointer model (byte slices as cells+offset, little-endian word views, word views; buffer addresses are 16-byte aligned constants except in HarnessC13_Mask, where they are symbolic so that every alignment is explored); the mask key source (math/rand) is an unconstrained symbolic value",
 	}, commonAssumptions...)
@@ -274,6 +274,8 @@ func init() {
 			{Pkg: "websocket", Func: "HarnessC13_RoundTrip", TimeFixed: true, Labels: []string{"roundtrip"},
 				Bound:  "client or server; APIs {WriteMessage, NextWriter+2 Writes with every split, WriteString, ReadFrom from readers with/without (n,EOF) and 1-2 byte chunks, prepared message}; one message of 0..6 symbolic bytes with write buffer 1/4/16; one message of 125/126/127 bytes (3 symbolic positions) with write buffer 16/4096; two messages of 0..2 bytes; one message of 65535/65536 bytes in a single frame (write buffer 70000, WriteMessage and NextWriter+Writes); mask key symbolic",
 				BoundT: "messages of 0..20 bytes; boundary sizes 125,126,127,4095,4096,4097,65535,65536; sessions of 2-3 messages"},
+			{Pkg: "websocket", Func: "HarnessC13_Compressed", TimeFixed: true, Steps: 400000000, Labels: []string{"compressed"}, Bound: "per-message deflate, writer side: client or server; level BestSpeed/default (concrete pseudo-random payload) or 0 = stored blocks (symbolic payload up to 40 bytes); message of 0/1/40/100 bytes; write buffer 8/32 (1..15 frames); WriteMessage or NextWriter+2 Writes; frames parsed independently, RSV1 on the first frame only, payloads + 00 00 ff ff inflated by compress/flate give the message"},
+			{Pkg: "websocket", Func: "HarnessC13_CompressedRead", TimeFixed: true, Steps: 400000000, Labels: []string{"compressed-read"}, Bound: "per-message deflate, reader side: a compress/flate sync-flushed stream without its 00 00 ff ff tail, level BestSpeed (concrete payload) or stored blocks (symbolic payload), message of 0/1/30 bytes, split over 1-3 frames at forked offsets (thorough: every offset), whole or 1-byte reads"},
 			{Pkg: "websocket", Func: "HarnessC13_Mask", SymAddr: true, Labels: []string{"mask"}, Bound: "maskBytes (real implementation incl. the unsafe word loop) vs the byte-wise RFC 6455 definition: buffer lengths {0,1,7,15,16,17,23,24,25,31,33} with all bytes symbolic, key symbolic, start position 0..3, buffer address symbolic (every alignment)", BoundT: "lengths up to 100"},
 			{Pkg: "websocket", Func: "HarnessC13_TruncWriter", Labels: []string{"truncwriter"}, Bound: "every input of 0..10 symbolic bytes split into 3 writes at every pair of offsets"},
 		},
